@@ -493,10 +493,20 @@ class Tr:
             t, ty, r = self.ex(test.left, env)
             if r or not ty.startswith("O"):
                 raise Unsupported("`is None` on " + ty)
-            a, b = then_k(env), else_k(env)
+            none_k, some_k = then_k, else_k
             if isinstance(test.ops[0], ast.IsNot):
-                a, b = b, a
-            return self.join("(match %s with None => %%s | Some _ => %%s end)" % t, a, b)
+                none_k, some_k = else_k, then_k
+            binder = "_"
+            env_some = env
+            if isinstance(test.left, ast.Name):
+                # inside the not-None branch the variable is the wrapped value
+                binder = cname(test.left.id) + "_v"
+                env_some = dict(env)
+                env_some[test.left.id] = (binder, ty[1:])
+            a, b = none_k(env), some_k(env_some)
+            if binder != "_" and binder not in b[0]:
+                binder = "_"
+            return self.join("(match %s with None => %%s | Some %s => %%s end)" % (t, binder), a, b)
         t, ty, r = self.ex(test, env)
         self.need(ty, "B", test)
         if r:
